@@ -182,7 +182,7 @@ Section C04.
     export_statement u self_name e (EOSpread sp) st = inl (tt, st') ->
     exists item s1 ex adds,
       eval_expr u self_name e st = inl (item, s1) /\ is_instance_with u (rs_g s1) item ex /\
-      (NoDup (map (ru_intern u) (map fst ex)) ->
+      (NoDup (map (ru_intern u) (map fst ex)) -> alias_nondef_b (rs_g s1) = true ->
        exports (rs_g st') = exports (rs_g s1) ++ adds /\ adds <> [] /\
        map fst adds = map (ru_intern u) (export_filter u (rs_g s1) (map fst ex)) /\
        Forall (fun p => exists nm, fst p = ru_intern u nm /\ alias_witness u item nm (snd p)) adds).
